@@ -9,13 +9,44 @@ import (
 )
 
 // convert incoming EEBUS json format into standard json format
+//
+// The conversion is textual, so it has to leave the content of string
+// literals alone: only the text between them is structure.
 func JsonFromEEBUSJson(json []byte) []byte {
+	result := make([]byte, 0, len(json))
+	for len(json) > 0 {
+		// the structure up to the next string literal
+		end := bytes.IndexByte(json, '"')
+		if end < 0 {
+			end = len(json)
+		}
+		result = append(result, eebusStructureToJson(json[:end])...)
+		json = json[end:]
+
+		// the string literal, including its quotes, is copied unchanged
+		end = len(json)
+		for i := 1; i < len(json); i++ {
+			if json[i] == '\\' {
+				i++
+			} else if json[i] == '"' {
+				end = i + 1
+				break
+			}
+		}
+		result = append(result, json[:end]...)
+		json = json[end:]
+	}
+	// The PMCP device mistakenly adds an `0x00` byte at the end of many messages.
+	result = bytes.Trim(result, "\x00")
+	return result
+}
+
+// convert EEBUS json structure (text without string literals) into standard json structure
+func eebusStructureToJson(json []byte) []byte {
 	var result = bytes.ReplaceAll(json, []byte("[{"), []byte("{"))
 	result = bytes.ReplaceAll(result, []byte("},{"), []byte(","))
 	result = bytes.ReplaceAll(result, []byte("}]"), []byte("}"))
 	result = bytes.ReplaceAll(result, []byte("[]"), []byte("{}"))
-	// The PMCP device mistakenly adds an `0x00` byte at the end of many messages.
-	result = bytes.Trim(result, "\x00")
 	return result
 }
 
